@@ -21,6 +21,7 @@ pub mod c18;
 pub mod c19;
 pub mod c20;
 pub mod probe;
+pub mod progcase;
 
 use crate::util::{Args, Out, Rng, catch, fp};
 use serde::{Serialize, de::DeserializeOwned};
